@@ -47,6 +47,8 @@ def op_strategies(set_funcs=SET_FUNCS, list_funcs=LIST_FUNCS, symbols=False, loa
     for f in set_funcs:
         fields = dict(k=set_kind, p=st.integers(0, 5), f=st.just(f), cs=cs)
         fields["as"] = how
+        if f in ("discard", "remove", "isub"):
+            fields["xk"] = st.sampled_from([0, 0, 0, 1, 2])
         if f == "update":
             fields["cs2"] = cs
             fields["two"] = st.booleans()
